@@ -130,7 +130,7 @@ func checkCmd(id, tier string) int {
 		go func(w int) {
 			defer wg.Done()
 			sub := subs[w%len(subs)]
-			spec := workerSpec{from: int64(w), stride: int64(W), seconds: seconds, sub: sub, samples: 3, maxViol: 3}
+			spec := workerSpec{tier: tier, from: int64(w), stride: int64(W), seconds: seconds, sub: sub, samples: 3, maxViol: 3}
 			a, err := runWorker(bi, pc, seed, w, spec, knownFile)
 			mu.Lock()
 			defer mu.Unlock()
@@ -161,7 +161,7 @@ func checkCmd(id, tier string) int {
 	var selfDigests []uint64
 	if len(m.Violations) == 0 && selfN > 0 {
 		for _, gmp := range []int{1, 4, 16} {
-			a, err := runWorker(bi, pc, seed, 100+gmp, workerSpec{from: 0, stride: 1, count: selfN, gomaxprocs: gmp, sub: subs[len(subs)-1], samples: 0, maxViol: 1}, knownFile)
+			a, err := runWorker(bi, pc, seed, 100+gmp, workerSpec{tier: tier, from: 0, stride: 1, count: selfN, gomaxprocs: gmp, sub: subs[len(subs)-1], samples: 0, maxViol: 1}, knownFile)
 			if err != nil {
 				trouble("determinism self-check: %v", err)
 			}
